@@ -16,12 +16,44 @@ func init() { register("C04", checkC04) }
 // upstreamConnects returns, for each implementer of upstream.Upstream, the
 // SSA function that performs the socketace client handshake together with the
 // index of its mustSecure parameter (following Connect -> helper one level).
+type connectFrame struct {
+	Fn   *ssa.Function
+	Call ssa.CallInstruction // in Fn: the call to the next frame's function, or (innermost) to NewClientConnection
+	Must ssa.Value           // the mustSecure value as it is known in Fn
+}
+
 type connectSite struct {
-	Type     *types.Named
-	Fn       *ssa.Function
-	Must     ssa.Value // mustSecure parameter in Fn
-	Call     *ssa.Call // call to socketace.NewClientConnection
-	CC, Err  ssa.Value
+	Type    *types.Named
+	Frames  []connectFrame // outermost (the type's Connect) first; helpers that the handshake was moved into follow
+	Fn      *ssa.Function  // innermost frame: the function containing the call to NewClientConnection
+	Must    ssa.Value      // mustSecure parameter in Fn
+	Call    *ssa.Call      // call to socketace.NewClientConnection
+	CC, Err ssa.Value
+}
+
+// lift expresses a value of the innermost frame in the outermost frame possible: a parameter of a helper is
+// replaced by the argument its caller passes. Returns the value and the index of the frame it lives in.
+func (cs connectSite) lift(v ssa.Value) (ssa.Value, int) {
+	idx := len(cs.Frames) - 1
+	for idx > 0 {
+		p, ok := v.(*ssa.Parameter)
+		if !ok || p.Parent() != cs.Frames[idx].Fn {
+			break
+		}
+		j := -1
+		for k, q := range cs.Frames[idx].Fn.Params {
+			if q == p {
+				j = k
+			}
+		}
+		args := cs.Frames[idx-1].Call.Common().Args
+		if j < 0 || j >= len(args) {
+			break
+		}
+		v = args[j]
+		idx--
+	}
+	return v, idx
 }
 
 func findConnectSites(w *World) ([]connectSite, []string) {
@@ -46,38 +78,46 @@ func findConnectSites(w *World) ([]connectSite, []string) {
 				must = p
 			}
 		}
-		find := func(f *ssa.Function) *ssa.Call {
+		// follow the mustSecure value through static module calls (the handshake may live in a helper)
+		var search func(f *ssa.Function, must ssa.Value, depth int) []connectFrame
+		search = func(f *ssa.Function, must ssa.Value, depth int) []connectFrame {
 			for _, c := range callsIn(f) {
 				if cl, ok := c.(*ssa.Call); ok && sCallee(c) == ncc {
-					return cl
+					return []connectFrame{{Fn: f, Call: cl, Must: must}}
 				}
 			}
-			return nil
-		}
-		call := find(fn)
-		target := fn
-		if call == nil {
-			// one level: static module callee receiving mustSecure
-			for _, c := range callsIn(fn) {
+			if depth >= 3 {
+				return nil
+			}
+			for _, c := range callsIn(f) {
+				if _, isGo := c.(*ssa.Go); isGo {
+					continue
+				}
 				sc := c.Common().StaticCallee()
 				if sc == nil || !inModule(sc) {
 					continue
 				}
 				for i, a := range c.Common().Args {
 					if a == must && i < len(sc.Params) {
-						if cl := find(sc); cl != nil {
-							call, target, must = cl, sc, sc.Params[i]
+						if rest := search(sc, sc.Params[i], depth+1); rest != nil {
+							return append([]connectFrame{{Fn: f, Call: c, Must: must}}, rest...)
 						}
 					}
 				}
 			}
+			return nil
 		}
-		if call == nil || must == nil {
+		var frames []connectFrame
+		if must != nil {
+			frames = search(fn, must, 0)
+		}
+		if frames == nil {
 			problems = append(problems, qualName(n)+": Connect does not reach socketace.NewClientConnection with its mustSecure parameter")
 			continue
 		}
-		cs := connectSite{Type: n, Fn: target, Must: must, Call: call}
-		for _, ref := range *call.Referrers() {
+		in := frames[len(frames)-1]
+		cs := connectSite{Type: n, Frames: frames, Fn: in.Fn, Must: in.Must, Call: in.Call.(*ssa.Call)}
+		for _, ref := range *cs.Call.Referrers() {
 			if ex, ok := ref.(*ssa.Extract); ok {
 				if ex.Index == 0 {
 					cs.CC = ex
@@ -89,6 +129,40 @@ func findConnectSites(w *World) ([]connectSite, []string) {
 		out = append(out, cs)
 	}
 	return out, problems
+}
+
+// rootsInter: rootsOf (through the transparent stream wrappers) that also looks through module helpers: a
+// root that is a result of a static module call is replaced by what the callee returns there.
+func rootsInter(w *World, v ssa.Value, depth int) []ssa.Value {
+	var out []ssa.Value
+	for _, root := range rootsOf(w, v) {
+		var call *ssa.Call
+		idx := 0
+		switch x := root.(type) {
+		case *ssa.Extract:
+			if c, ok := x.Tuple.(*ssa.Call); ok {
+				call, idx = c, x.Index
+			}
+		case *ssa.Call:
+			call = x
+		}
+		out = append(out, root)
+		if call == nil || depth > 3 {
+			continue
+		}
+		callee := call.Call.StaticCallee()
+		if callee == nil || !inModule(callee) || len(callee.Blocks) == 0 {
+			continue
+		}
+		for _, b := range callee.Blocks {
+			ret, ok := b.Instrs[len(b.Instrs)-1].(*ssa.Return)
+			if !ok || idx >= len(ret.Results) || isConstNil(ret.Results[idx]) {
+				continue
+			}
+			out = append(out, rootsInter(w, ret.Results[idx], depth+1)...)
+		}
+	}
+	return out
 }
 
 func checkC04(w *World, r *Report) {
@@ -148,33 +222,84 @@ func checkC04(w *World, r *Report) {
 			r.Check(bad == "", "R04.1", key, pos, fmt.Sprintf("%d success path(s), each under !mustSecure or cc.Secure()", succ), bad, "success_paths", succ)
 		}
 
+		// R04.1 (outer frames): a function that delegates the handshake to a helper reports success only where the helper did
+		for k := len(cs.Frames) - 2; k >= 0; k-- {
+			fr := cs.Frames[k]
+			callv, _ := fr.Call.(*ssa.Call)
+			if callv == nil {
+				r.Undecided("R04.1", key+fmt.Sprintf("|frame%d", k), pos, "the handshake helper is not called synchronously")
+				continue
+			}
+			var errv ssa.Value = nil
+			if callv.Type() != nil {
+				if tup, ok := callv.Type().(*types.Tuple); ok {
+					for _, ref := range *callv.Referrers() {
+						if ex, ok := ref.(*ssa.Extract); ok && ex.Index == tup.Len()-1 {
+							errv = ex
+						}
+					}
+				} else {
+					errv = callv // single error result
+				}
+			}
+			badk := ""
+			okk := enumPaths(fr.Fn, callv, nil, nil, func(e pathExit) {
+				ret, isRet := e.Last.(*ssa.Return)
+				if !isRet || len(ret.Results) == 0 {
+					return
+				}
+				rv := e.State.Resolve(ret.Results[len(ret.Results)-1])
+				if rv == errv {
+					return // the helper's verdict is passed on unchanged
+				}
+				if !isConstNil(rv) {
+					return
+				}
+				if errv != nil {
+					if isNil, known := e.State.NilKnown(errv); known && isNil {
+						return
+					}
+				}
+				badk = fmt.Sprintf("%s: %s reports success on a path where the handshake helper's error was not found nil", w.Pos(ret.Pos()), ssaFuncKey(fr.Fn))
+			})
+			if !okk {
+				badk = "path budget exceeded"
+			}
+			if badk != "" {
+				r.Violate("R04.1", key+fmt.Sprintf("|frame%d", k), w.Pos(callv.Pos()), badk)
+			}
+		}
+
 		// R04.2: store to the embedded Connection field of the receiver derives from cc
 		stored := 0
 		bad2 := ""
-		allInstrs(cs.Fn, func(in ssa.Instruction) {
-			st, ok := in.(*ssa.Store)
-			if !ok {
-				return
-			}
-			fa, ok := st.Addr.(*ssa.FieldAddr)
-			if !ok || len(cs.Fn.Params) == 0 || fa.X != cs.Fn.Params[0] {
-				return
-			}
-			fv := fieldVarOf(fa)
-			if fv == nil || !fv.Embedded() {
-				return
-			}
-			stored++
-			from := false
-			for _, root := range rootsOf(w, st.Val) {
-				if root == cs.CC {
-					from = true
+		for _, fr := range cs.Frames {
+			ffn := fr.Fn
+			allInstrs(ffn, func(in ssa.Instruction) {
+				st, ok := in.(*ssa.Store)
+				if !ok {
+					return
 				}
-			}
-			if !from {
-				bad2 = fmt.Sprintf("%s: the upstream's connection is not derived from the socketace handshake result (the raw carrier bypasses the negotiated security)", w.Pos(st.Pos()))
-			}
-		})
+				fa, ok := st.Addr.(*ssa.FieldAddr)
+				if !ok || len(ffn.Params) == 0 || fa.X != ffn.Params[0] {
+					return
+				}
+				fv := fieldVarOf(fa)
+				if fv == nil || !fv.Embedded() {
+					return
+				}
+				stored++
+				from := false
+				for _, root := range rootsInter(w, st.Val, 0) {
+					if root == cs.CC {
+						from = true
+					}
+				}
+				if !from {
+					bad2 = fmt.Sprintf("%s: the upstream's connection is not derived from the socketace handshake result (the raw carrier bypasses the negotiated security)", w.Pos(st.Pos()))
+				}
+			})
+		}
 		if stored == 0 {
 			bad2 = "Connect never stores the negotiated connection into the upstream"
 		}
@@ -472,6 +597,25 @@ func c04StartTLS(w *World, r *Report) {
 			if isConstNil(c0) && !isConstNil(e1) {
 				return // refused
 			}
+			// the StartTLS branch may be a helper whose two results are returned as they are
+			if x0, ok := c0.(*ssa.Extract); ok {
+				if x1, ok := e1.(*ssa.Extract); ok && x0.Tuple == x1.Tuple && x0.Index == 0 && x1.Index == 1 {
+					if call, ok := x0.Tuple.(*ssa.Call); ok {
+						if h := call.Call.StaticCallee(); h != nil && inModule(h) && len(h.Blocks) > 0 {
+							var hconn ssa.Value
+							for ai, a := range call.Call.Args {
+								if a == ssa.Value(connParam) && ai < len(h.Params) {
+									hconn = h.Params[ai]
+								}
+							}
+							if why := c04TlsOrError(w, h, hconn); why != "" {
+								bad = why
+							}
+							return
+						}
+					}
+				}
+			}
 			if isConstNil(e1) {
 				viaTLS := false
 				for _, root := range rootsOfNoTLS(w, c0) {
@@ -713,7 +857,14 @@ func c04Correlation(w *World, r *Report, sites []connectSite) {
 			r.Undecided("R04.5", key, pos, "unexpected NewClientConnection arity")
 			continue
 		}
-		secArg, connArg := args[2], args[0]
+		secArg, fsec := cs.lift(args[2])
+		connArg, fconn := cs.lift(args[0])
+		// evaluate both in the same (outer) frame: the one where the secure flag is decided
+		frame := cs.Frames[fsec]
+		if fconn != fsec {
+			// the carrier is decided in another frame than the flag: fall back to the innermost common view
+			secArg, connArg, frame = args[2], args[0], cs.Frames[len(cs.Frames)-1]
+		}
 		if b, isC := constBool(secArg); isC && !b {
 			r.Hold("R04.5", key, pos, "secure argument is the constant false (StartTLS may still upgrade)")
 			continue
@@ -721,7 +872,8 @@ func c04Correlation(w *World, r *Report, sites []connectSite) {
 		bad := ""
 		ntrue := 0
 		schemeGuarded := true
-		okp := enumPaths(cs.Fn, nil, nil, func(in ssa.Instruction) bool { return in == ssa.Instruction(cs.Call) }, func(e pathExit) {
+		stopAt, _ := frame.Call.(ssa.Instruction)
+		okp := enumPaths(frame.Fn, nil, nil, func(in ssa.Instruction) bool { return in == stopAt }, func(e pathExit) {
 			if e.Stop == nil {
 				return
 			}
@@ -1046,4 +1198,46 @@ func c04CapturedFlag(w *World, r *Report, key, pos string, fn *ssa.Function, c s
 		bad = "the closure never wraps the stream in TLS although the flag can be true"
 	}
 	r.Check(bad == "", "R04.5", key, pos, fmt.Sprintf("captured flag: %d store(s) of true, each beside GetTlsConfig; %d closure path(s) with a TLS config, each handing the tls.Server connection on", ntrue, tlsPaths), bad)
+}
+
+// c04TlsOrError: every return of h is (nil, error) or (a connection built on tls.Server, nil); the plain
+// connection handed in is never returned as an established session.
+func c04TlsOrError(w *World, h *ssa.Function, plain ssa.Value) string {
+	bad := ""
+	n := 0
+	okp := enumPaths(h, nil, nil, nil, func(e pathExit) {
+		ret, isRet := e.Last.(*ssa.Return)
+		if !isRet || len(ret.Results) != 2 {
+			return
+		}
+		n++
+		c0 := e.State.Resolve(ret.Results[0])
+		e1 := e.State.Resolve(ret.Results[1])
+		if isConstNil(c0) && !isConstNil(e1) {
+			return
+		}
+		if isConstNil(e1) {
+			viaTLS := false
+			for _, root := range rootsOfNoTLS(w, c0) {
+				if mk, ok := root.(*ssa.Call); ok && isPkgFunc(sCallee(mk), "crypto/tls", "Server") {
+					viaTLS = true
+				}
+				if plain != nil && root == plain {
+					bad = fmt.Sprintf("%s: StartTLS was requested but the plain connection is returned as an established session", w.Pos(ret.Pos()))
+				}
+			}
+			if !viaTLS && bad == "" {
+				bad = fmt.Sprintf("%s: StartTLS was requested but the returned session is not the tls.Server connection", w.Pos(ret.Pos()))
+			}
+			return
+		}
+		bad = fmt.Sprintf("%s: on a StartTLS path the function returns both a connection and an error", w.Pos(ret.Pos()))
+	})
+	if !okp {
+		return "path budget exceeded in " + ssaFuncKey(h)
+	}
+	if n == 0 {
+		return ssaFuncKey(h) + " has no (connection, error) return"
+	}
+	return bad
 }
